@@ -52,6 +52,12 @@ CHECKS = {
    note='Trusted: the lazy reference model (one Python generator per operator). Value mismatches give no verdict (C13). Loops that neither pull nor apply a lambda are only bounded by a wall guard and reported as HARNESS-ERROR, never as exit 0.',
    technique='deterministic simulation with fault injection on host streams (endless / failing / budgeted SimSource, cancelling client), lazy executable reference model as consumption oracle, pipeline shrinking + replay',
    quick_timeout=900, thorough_timeout=21600),
+ 'C08': dict(
+   category='fault_enumeration', design_ref='DESIGN.md 3.3',
+   text='Fault enumeration over the introspected registry: every visible parameter of every function of the default and legacy chains whose declared type accepts an iterator/sequence/set/mapping (187 + 212 positions, decided by the type check itself, so new functions are covered automatically) is fed in turn by endless / boundary-length (N-1, N, N+1) instrumented sources, sized collections at the boundary and library-made endless generators (itertools proxied to budgeted sources), for N in {0,1,2,3,7,10,100}, with consumer/nesting wrappers (toList, len, first, where(false).first, [x], {a=>x}, [[x]], select([$, [$,$]])), conversion on/off. Monitors: pulls per source <= N+1, termination inside logical budgets (50(N+1) pulls, 4M call events), no collection > N at any depth of a result. Quota family: growth chains (+, *, join, replace, accumulate, toDict, groupBy, distinct, memorize, format) incl. non-ASCII strings, over-quota host values and literals, Q placed just above the operands: no measured argument seen by any payload and no returned value exceeds Q; huge repetitions must refuse with a tracemalloc peak < 5 MB. Every position is visited each quick run; other choices are seeded.',
+   note='Trusted: payload shims measuring sys.getsizeof of arguments, SimSource pull counters, sys.settrace call-event counter as logical clock, RLIMIT_AS 6 GB per worker. CPython cannot make a single allocation fail, so memory is monitored, not faulted.',
+   technique='deterministic simulation with fault enumeration: instrumented endless/oversize/boundary streams injected at every introspected collection parameter, logical step budgets instead of a watchdog, payload-argument size monitors, tracemalloc, shrinking + replay (with process-history prelude)',
+   quick_timeout=900, thorough_timeout=21600),
 }
 
 
